@@ -154,6 +154,105 @@ pub fn parse_bound(s: &str) -> std::ops::Bound<usize> {
     match k { "inc" => std::ops::Bound::Included(v), "exc" => std::ops::Bound::Excluded(v), _ => panic!("bad bound") }
 }
 
+
+// ---------------------------------------------------------------- view paths on the std mirror
+fn tok3(t: &str) -> (&str, usize, usize) {
+    let mut it = t.split(':');
+    let name = it.next().unwrap();
+    let a = it.next().map(|x| x.parse().unwrap_or(usize::MAX - 7)).unwrap_or(0);
+    let b = it.next().map(|x| x.parse().unwrap_or(usize::MAX - 7)).unwrap_or(0);
+    (name, a, b)
+}
+fn tokw(t: &str) -> Option<(usize, i64, u32)> {
+    // write:pos:leaf:tag
+    let v: Vec<&str> = t.split(':').collect();
+    if v[0] != "write" { return None; }
+    Some((v[1].parse().unwrap(), v[2].parse().unwrap(), v[3].parse().unwrap()))
+}
+pub fn el_ids<T: Shape>(e: &T) -> String { let mut o = vec![]; e.ids(&mut o); fmt_ids(&o) }
+pub fn spath_std<T: Shape>(mut s: &[T], toks: &[&str]) -> String {
+    for (n, t) in toks.iter().enumerate() {
+        let (name, a, b) = tok3(t);
+        let side = t.rsplit(':').next().unwrap();
+        match name {
+            "split_at" => { let (l, r) = s.split_at(a); s = if b == 0 { l } else { r }; }
+            "split_first" => match s.split_first() { Some((e, rest)) => { if side == "elem" { return format!("some{}", el_ids(e)); } s = rest; } None => return "none".into() },
+            "split_last" => match s.split_last() { Some((e, rest)) => { if side == "elem" { return format!("some{}", el_ids(e)); } s = rest; } None => return "none".into() },
+            "range" => { s = &s[a..b]; }
+            "rangeto" => { s = &s[..a]; }
+            "rangefrom" => { s = &s[a..]; }
+            "incl" => { s = &s[a..=b]; }
+            "first" => return match s.first() { Some(e) => format!("some{}", el_ids(e)), None => "none".into() },
+            "last" => return match s.last() { Some(e) => format!("some{}", el_ids(e)), None => "none".into() },
+            "get" => return match s.get(a) { Some(e) => format!("some{}", el_ids(e)), None => "none".into() },
+            "idx" => return el_ids(&s[a]),
+            "reborrow" | "as_ref" | "as_slice" => { let _ = n; }
+            _ => panic!("bad view token {}", t),
+        }
+    }
+    fmt_cols(&mirror_cols(s))
+}
+pub fn mpath_std<T: Shape>(s: &mut [T], toks: &[&str]) -> String {
+    if toks.is_empty() { return fmt_cols(&mirror_cols(s)); }
+    let t = toks[0]; let rest = &toks[1..];
+    if let Some((pos, leaf, tag)) = tokw(t) {
+        return match s.get_mut(pos) { Some(e) => { let mut j = leaf; T::own_write(e, &mut j, tag * 8 + leaf as u32); "written".into() } None => "nowrite".into() };
+    }
+    let (name, a, b) = tok3(t);
+    let side = t.rsplit(':').next().unwrap();
+    let welem = |e: &mut T, rest: &[&str]| -> String {
+        if let Some(Some((_, leaf, tag))) = rest.first().map(|x| tokw(x)) { let mut j = leaf; T::own_write(e, &mut j, tag * 8 + leaf as u32); "written".into() } else { format!("some{}", el_ids(e)) }
+    };
+    match name {
+        "split_at" => { let (l, r) = s.split_at_mut(a); mpath_std(if b == 0 { l } else { r }, rest) }
+        "split_first" => match s.split_first_mut() { Some((e, r)) => if side == "elem" { welem(e, rest) } else { mpath_std(r, rest) }, None => "none".into() },
+        "split_last" => match s.split_last_mut() { Some((e, r)) => if side == "elem" { welem(e, rest) } else { mpath_std(r, rest) }, None => "none".into() },
+        "range" => mpath_std(&mut s[a..b], rest),
+        "rangeto" => mpath_std(&mut s[..a], rest),
+        "rangefrom" => mpath_std(&mut s[a..], rest),
+        "incl" => mpath_std(&mut s[a..=b], rest),
+        "first" => match s.first_mut() { Some(e) => welem(e, rest), None => "none".into() },
+        "last" => match s.last_mut() { Some(e) => welem(e, rest), None => "none".into() },
+        "get" => match s.get_mut(a) { Some(e) => welem(e, rest), None => "none".into() },
+        "idx" => { let e = &mut s[a]; if let Some(Some((_, leaf, tag))) = rest.first().map(|x| tokw(x)) { let mut j = leaf; T::own_write(e, &mut j, tag * 8 + leaf as u32); "written".into() } else { el_ids(e) } }
+        "reborrow" => mpath_std(s, rest),
+        "as_ref" | "as_slice" => spath_std(s, rest),
+        _ => panic!("bad view token {}", t),
+    }
+}
+
+
+// ---------------------------------------------------------------- iterators, sorting, pointers on the std mirror
+/// drive a double-ended exact-size iterator by a step string: F next, B next_back, L len, H size_hint
+pub fn drive<I, X>(it: &mut I, steps: &str, mut show: impl FnMut(X, usize) -> String) -> String
+where I: DoubleEndedIterator<Item = X> + ExactSizeIterator {
+    let mut out: Vec<String> = vec![]; let mut k = 0usize;
+    for c in steps.chars() {
+        match c {
+            'F' => out.push(match it.next() { Some(x) => { let s = format!("F{}", show(x, k)); k += 1; s } None => "Fnone".into() }),
+            'B' => out.push(match it.next_back() { Some(x) => { let s = format!("B{}", show(x, k)); k += 1; s } None => "Bnone".into() }),
+            'L' => out.push(format!("L{}", it.len())),
+            'H' => { let (lo, hi) = it.size_hint(); out.push(format!("H{}:{}", lo, hi.map(|x| x.to_string()).unwrap_or("inf".into()))) }
+            _ => panic!("bad iterator step"),
+        }
+    }
+    out.join(",")
+}
+pub fn key_leaf<T: Shape>() -> usize { let mut d = String::new(); T::desc(&mut d); d.chars().filter(|c| "zbslh".contains(*c)).position(|c| c != 'z').unwrap_or(0) }
+/// gather `new[i] = old[p[i]]` on the mirror (what `apply_index` must do)
+pub fn gather<T>(v: &mut Vec<T>, p: &[usize]) {
+    assert!(p.len() == v.len());
+    let mut seen = vec![false; p.len()];
+    for &i in p { assert!(i < p.len() && !seen[i], "not a permutation"); seen[i] = true; }
+    let mut slots: Vec<Option<T>> = std::mem::take(v).into_iter().map(Some).collect();
+    for &i in p { v.push(slots[i].take().unwrap()); }
+}
+pub struct SortCb { pub k: usize, pub panic_at: Option<usize>, pub modulus: u32 }
+impl SortCb {
+    pub fn new(w: &[&str]) -> SortCb { SortCb { k: 0, panic_at: kv(w, "panic").map(|x| x.parse().unwrap()), modulus: kv(w, "mod").map(|x| x.parse().unwrap()).unwrap_or(4) } }
+    pub fn key(&mut self, id: u32) -> u32 { let k = self.k; self.k += 1; if self.panic_at == Some(k) { panic!("callback fuse") } (id / 8) % self.modulus }
+}
+
 /// is every leaf span of `child` inside the corresponding leaf span of `parent`
 /// (spans: base address, length, element size), element-aligned
 pub fn within(parent: &[(usize, usize, usize)], child: &[(usize, usize, usize)]) -> bool {
@@ -188,11 +287,66 @@ macro_rules! by_form {
 
 #[macro_export]
 macro_rules! interp {
-    ($run:ident, $T:ident, $V:ident, $S:ident, $SM:ident, $R:ident, $RM:ident, $P:ident, $PM:ident, $cl:tt) => {
+    ($run:ident, $T:ident, $V:ident, $S:ident, $SM:ident, $R:ident, $RM:ident, $P:ident, $PM:ident, $IT:ident, $ITM:ident, $cl:tt) => {
         #[allow(unused_variables, unused_mut, unreachable_code)]
         pub fn $run(lines: &[&str], out: &mut String) {
             use soa_derive::*;
             type T = $T;
+            fn rids_s(x: &$R<'_>) -> String { let mut o = vec![]; <T as Shape>::rids(x, &mut o); fmt_ids(&o) }
+            fn rmids_s(x: &$RM<'_>) -> String { let mut o = vec![]; <T as Shape>::rmids(x, &mut o); fmt_ids(&o) }
+            /// a path of view operations on a shared slice (views are `Copy`; `reborrow` recurses because it shortens the lifetime)
+            fn spath<'a>(mut s: $S<'a>, toks: &[&str]) -> String {
+                for (n, t) in toks.iter().enumerate() {
+                    let (name, a, b) = tok3(t);
+                    let side = t.rsplit(':').next().unwrap();
+                    match name {
+                        "split_at" => { let (l, r) = s.split_at(a); s = if b == 0 { l } else { r }; }
+                        "split_first" => match s.split_first() { Some((e, rest)) => { if side == "elem" { return format!("some{}", rids_s(&e)); } s = rest; } None => return "none".into() },
+                        "split_last" => match s.split_last() { Some((e, rest)) => { if side == "elem" { return format!("some{}", rids_s(&e)); } s = rest; } None => return "none".into() },
+                        "range" => { s = ::soa_derive::SoAIndex::index(a..b, s); }
+                        "rangeto" => { s = ::soa_derive::SoAIndex::index(..a, s); }
+                        "rangefrom" => { s = ::soa_derive::SoAIndex::index(a.., s); }
+                        "incl" => { s = ::soa_derive::SoAIndex::index(a..=b, s); }
+                        "first" => return match s.first() { Some(e) => format!("some{}", rids_s(&e)), None => "none".into() },
+                        "last" => return match s.last() { Some(e) => format!("some{}", rids_s(&e)), None => "none".into() },
+                        "get" => return match ::soa_derive::SoAIndex::get(a, s) { Some(e) => format!("some{}", rids_s(&e)), None => "none".into() },
+                        "idx" => return rids_s(&::soa_derive::SoAIndex::index(a, s)),
+                        "reborrow" => { let t2 = s; return spath(t2.reborrow(), &toks[n + 1..]); }
+                        _ => panic!("bad view token {}", t),
+                    }
+                }
+                let mut o = vec![]; <T as Shape>::scols(&s, &mut o); fmt_cols(&o)
+            }
+            /// the same on a mutable slice (consumed at every step); a final `write:pos:leaf:tag` writes through it
+            fn mpath<'a>(mut s: $SM<'a>, toks: &[&str]) -> String {
+                if toks.is_empty() { let mut o = vec![]; <T as Shape>::smcols(&s, &mut o); return fmt_cols(&o); }
+                let t = toks[0]; let rest = &toks[1..];
+                if let Some((pos, leaf, tag)) = tokw(t) {
+                    return match s.get_mut(pos) { Some(mut e) => { let mut j = leaf; <T as Shape>::rm_write(&mut e, &mut j, tag * 8 + leaf as u32); "written".into() } None => "nowrite".into() };
+                }
+                let (name, a, b) = tok3(t);
+                let side = t.rsplit(':').next().unwrap();
+                fn welem(mut e: $RM<'_>, rest: &[&str]) -> String {
+                    if let Some(Some((_, leaf, tag))) = rest.first().map(|x| tokw(x)) { let mut j = leaf; <T as Shape>::rm_write(&mut e, &mut j, tag * 8 + leaf as u32); "written".into() } else { format!("some{}", rmids_s(&e)) }
+                }
+                match name {
+                    "split_at" => { let (l, r) = s.split_at_mut(a); mpath(if b == 0 { l } else { r }, rest) }
+                    "split_first" => match s.split_first_mut() { Some((e, r)) => if side == "elem" { welem(e, rest) } else { mpath(r, rest) }, None => "none".into() },
+                    "split_last" => match s.split_last_mut() { Some((e, r)) => if side == "elem" { welem(e, rest) } else { mpath(r, rest) }, None => "none".into() },
+                    "range" => mpath(::soa_derive::SoAIndexMut::index_mut(a..b, s), rest),
+                    "rangeto" => mpath(::soa_derive::SoAIndexMut::index_mut(..a, s), rest),
+                    "rangefrom" => mpath(::soa_derive::SoAIndexMut::index_mut(a.., s), rest),
+                    "incl" => mpath(::soa_derive::SoAIndexMut::index_mut(a..=b, s), rest),
+                    "first" => match s.first_mut() { Some(e) => welem(e, rest), None => "none".into() },
+                    "last" => match s.last_mut() { Some(e) => welem(e, rest), None => "none".into() },
+                    "get" => match s.get_mut(a) { Some(e) => welem(e, rest), None => "none".into() },
+                    "idx" => { let mut e = s.index_mut(a); if let Some(Some((_, leaf, tag))) = rest.first().map(|x| tokw(x)) { let mut j = leaf; <T as Shape>::rm_write(&mut e, &mut j, tag * 8 + leaf as u32); "written".into() } else { rmids_s(&e) } }
+                    "reborrow" => mpath(s.reborrow(), rest),
+                    "as_ref" => spath(s.as_ref(), rest),
+                    "as_slice" => spath(s.as_slice(), rest),
+                    _ => panic!("bad view token {}", t),
+                }
+            }
             reset_ledgers();
             let mut regs: Vec<$V> = (0..NREG).map(|_| $V::new()).collect();
             let mut mirs: Vec<Vec<T>> = (0..NREG).map(|_| Vec::new()).collect();
@@ -376,6 +530,189 @@ macro_rules! interp {
                             format!("promise cap_ge_len={} moved={} pushed={}", cap >= len, b0 != b1, k) });
                         let rs = exec(1, || { for j in 0..k { mirs[r].push(mk(1, j % 32)); } });
                         (ri, rs) }
+                    // view r <shared|mut> <as_slice|as_mut_slice|slice:a:b|slice_mut:a:b> <path tokens...>   (pure: reads)
+                    // viewmut r mut <start> <path tokens...> write:pos:leaf:tag                                 (writes through the view)
+                    "view" | "viewmut" => { let r = reg(w[1]); let (mode, start) = (w[2], w[3]); let toks: Vec<&str> = w[4..].to_vec();
+                        let (sn, sa, sb) = tok3(start);
+                        let ri = exec(0, || -> String { match (mode, sn) {
+                            ("shared", "as_slice") => spath(regs[r].as_slice(), &toks),
+                            ("shared", "slice") => spath(regs[r].slice(sa..sb), &toks),
+                            ("mut", "as_mut_slice") => mpath(regs[r].as_mut_slice(), &toks),
+                            ("mut", "slice_mut") => mpath(regs[r].slice_mut(sa..sb), &toks),
+                            _ => panic!("bad view start") } });
+                        let rs = exec(1, || -> String { match (mode, sn) {
+                            ("shared", "as_slice") => spath_std::<T>(&mirs[r], &toks),
+                            ("shared", "slice") => spath_std::<T>(&mirs[r][sa..sb], &toks),
+                            ("mut", "as_mut_slice") => mpath_std::<T>(&mut mirs[r], &toks),
+                            ("mut", "slice_mut") => mpath_std::<T>(&mut mirs[r][sa..sb], &toks),
+                            _ => panic!("bad view start") } });
+                        (ri, rs) }
+                    // iter r <source> <steps>       (pure)   |   itermut r <source> <steps>   (every yielded element is written)
+                    "iter" => { let r = reg(w[1]); let (src, steps) = (w[2], w[3]);
+                        let ri = exec(0, || -> String {
+                            let show = |x: $R<'_>, _k: usize| rids_s(&x);
+                            match src {
+                                "vec.iter" => drive(&mut regs[r].iter(), steps, show),
+                                "vec.for" => drive(&mut (&regs[r]).into_iter(), steps, show),
+                                "slice.iter" => { let sl = regs[r].as_slice(); let mut it: $IT<'_> = sl.iter(); drive(&mut it, steps, show) }
+                                "slice.into_iter" => drive(&mut regs[r].as_slice().into_iter(), steps, show),
+                                "slice.trait" => drive(&mut IntoIterator::into_iter(regs[r].as_slice()), steps, show),
+                                "slice.for_ref" => { let sl = regs[r].as_slice(); let mut it: $IT<'_> = (&sl).into_iter(); drive(&mut it, steps, show) }
+                                "slicemut.iter" => { let mut sl = regs[r].as_mut_slice(); let mut it: $IT<'_> = sl.iter(); drive(&mut it, steps, show) }
+                                _ => panic!("bad iterator source") } });
+                        let rs = exec(1, || -> String { drive(&mut mirs[r].iter(), steps, |x: &T, _k| el_ids(x)) });
+                        (ri, rs) }
+                    "itermut" => { let r = reg(w[1]); let (src, steps) = (w[2], w[3]); let nl = <T as Shape>::nleaves();
+                        let ri = exec(0, || -> String {
+                            let show = |mut x: $RM<'_>, k: usize| { let s = rmids_s(&x); let l = k % nl; let mut j = l as i64; <T as Shape>::rm_write(&mut x, &mut j, ((16 + k as u32) % 32) * 8 + l as u32); s };
+                            match src {
+                                "vec.iter_mut" => drive(&mut regs[r].iter_mut(), steps, show),
+                                "vec.for_mut" => drive(&mut (&mut regs[r]).into_iter(), steps, show),
+                                "slicemut.iter_mut" => { let mut sl = regs[r].as_mut_slice(); let mut it: $ITM<'_> = sl.iter_mut(); drive(&mut it, steps, show) }
+                                "slicemut.into_iter" => drive(&mut regs[r].as_mut_slice().into_iter(), steps, show),
+                                "slicemut.trait" => drive(&mut IntoIterator::into_iter(regs[r].as_mut_slice()), steps, show),
+                                _ => panic!("bad iterator source") } });
+                        let rs = exec(1, || -> String { drive(&mut mirs[r].iter_mut(), steps, |x: &mut T, k| { let s = el_ids(x); let l = k % nl; let mut j = l as i64; <T as Shape>::own_write(x, &mut j, ((16 + k as u32) % 32) * 8 + l as u32); s }) });
+                        (ri, rs) }
+                    // sort r <entry> [mod=m] [panic=k] [range=a:b]
+                    "sort" => { let r = reg(w[1]); let entry = w[2]; let kl = key_leaf::<T>();
+                        let rng: Option<(usize, usize)> = kv(&w, "range").map(|x| { let (a, b) = x.split_once(':').unwrap(); (a.parse().unwrap(), b.parse().unwrap()) });
+                        let (mut ca, mut cb) = (SortCb::new(&w), SortCb::new(&w));
+                        let ri = exec(0, || {
+                            let mut keyr = |x: $R<'_>| { let mut o = vec![]; <T as Shape>::rids(&x, &mut o); ca.key(o[kl]) };
+                            match entry {
+                                "tvec_sort_by" => ::soa_derive::SoAVec::sort_by(&mut regs[r], |a, b| { let (x, y) = (keyr(a), keyr(b)); x.cmp(&y) }),
+                                "tvec_sort_by_key" => ::soa_derive::SoAVec::sort_by_key(&mut regs[r], |a| keyr(a)),
+                                "tsm_sort_by" | "tsm_sort_by_key" => {
+                                    // the provided methods of SoASliceMut need `Self: 'static` (GAT bound): park the vector on the heap
+                                    // to obtain a `SliceMut<'static>`, and bring it home also when the callback panics
+                                    let p: *mut $V = Box::into_raw(Box::new(std::mem::take(&mut regs[r])));
+                                    let res = catch_unwind(AssertUnwindSafe(|| {
+                                        let v: &'static mut $V = unsafe { &mut *p };
+                                        let mut sl = v.as_mut_slice();
+                                        if entry == "tsm_sort_by" { ::soa_derive::SoASliceMut::sort_by(&mut sl, |a, b| { let (x, y) = (keyr(a), keyr(b)); x.cmp(&y) }) }
+                                        else { ::soa_derive::SoASliceMut::sort_by_key(&mut sl, |a| keyr(a)) }
+                                    }));
+                                    let home = unsafe { *Box::from_raw(p) };
+                                    let empty = std::mem::replace(&mut regs[r], home); std::mem::forget(empty);
+                                    if let Err(e) = res { std::panic::resume_unwind(e) }
+                                }
+                                _ => {
+                                    let whole = regs[r].as_mut_slice();
+                                    let mut sl = match rng { Some((a, b)) => ::soa_derive::SoAIndexMut::index_mut(a..b, whole), None => whole };
+                                    match entry {
+                                        "sort" => sl.sort(),
+                                        "sort_by" => sl.sort_by(|a, b| { let (x, y) = (keyr(a), keyr(b)); x.cmp(&y) }),
+                                        "sort_by_key" => sl.sort_by_key(|a| keyr(a)),
+                                        _ => panic!("bad sort entry") } } } });
+                        let rs = exec(1, || {
+                            let mut keyo = |x: &T| { let mut o = vec![]; x.ids(&mut o); cb.key(o[kl]) };
+                            let sl: &mut [T] = match rng { Some((a, b)) if !entry.starts_with('t') => &mut mirs[r][a..b], _ => &mut mirs[r] };
+                            match entry {
+                                "sort" => sl.sort(),
+                                "sort_by" | "tsm_sort_by" | "tvec_sort_by" => sl.sort_by(|a, b| { let (x, y) = (keyo(a), keyo(b)); x.cmp(&y) }),
+                                _ => sl.sort_by_key(|a| keyo(a)) } });
+                        (format!("{} calls={}", ri, ca.k), format!("{} calls={}", rs, cb.k)) }
+                    // apply_index r <vec|slicemut> <index list>
+                    "apply_index" => { let r = reg(w[1]); let idx = parse_list(w[3]);
+                        (exec(0, || { match w[2] { "vec" => ::soa_derive::SoAVec::apply_index(&mut regs[r], &idx), _ => ::soa_derive::SoASliceMut::apply_index(&mut regs[r].as_mut_slice(), &idx) } }),
+                         exec(1, || { gather(&mut mirs[r], &idx); })) }
+                    // swap r a b  (SliceMut::swap)
+                    "swap" => { let r = reg(w[1]);
+                        (exec(0, || { regs[r].as_mut_slice().swap(arg(2), arg(3)); }), exec(1, || { mirs[r].swap(arg(2), arg(3)); })) }
+                    // ptr r <vec|slice|slicemut|ref:i> <const|mut> <steps...> <terminal>     (pure)
+                    // ptrw ... write:tag | write_volatile:tag | write_unaligned:tag | as_mut:leaf:tag    (writes)
+                    "ptr" | "ptrw" => { let r = reg(w[1]); let (from, cm) = (w[2], w[3]); let toks: Vec<&str> = w[4..].to_vec();
+                        let (fname, fi, _) = tok3(from);
+                        let signed = |t: &str| -> isize { t.split(':').nth(1).unwrap().parse().unwrap() };
+                        let ri = exec(0, || -> String { unsafe {
+                            let mut pc: Option<$P> = None; let mut pm: Option<$PM> = None;
+                            match (fname, cm) {
+                                ("vec", "const") => pc = Some(regs[r].as_ptr()), ("vec", "mut") => pm = Some(regs[r].as_mut_ptr()),
+                                ("slice", "const") => pc = Some(regs[r].as_slice().as_ptr()),
+                                ("slicemut", "const") => pc = Some(regs[r].as_mut_slice().as_ptr()), ("slicemut", "mut") => pm = Some(regs[r].as_mut_slice().as_mut_ptr()),
+                                ("ref", "const") => pc = Some(regs[r].index(fi).as_ptr()),
+                                ("refmut", "const") => pc = Some(regs[r].index_mut(fi).as_ptr()), ("refmut", "mut") => pm = Some(regs[r].index_mut(fi).as_mut_ptr()),
+                                _ => panic!("bad pointer source") }
+                            for t in &toks {
+                                let (name, a, _) = tok3(t);
+                                macro_rules! both { ($m:ident, $x:expr) => {{ if let Some(p) = pc { pc = Some(p.$m($x)); } if let Some(p) = pm { pm = Some(p.$m($x)); } }} }
+                                match name {
+                                    "add" => both!(add, a), "sub" => both!(sub, a), "offset" => both!(offset, signed(t)),
+                                    "wadd" => both!(wrapping_add, a), "wsub" => both!(wrapping_sub, a), "woffset" => both!(wrapping_offset, signed(t)),
+                                    "as_mut_ptr" => { pm = Some(pc.take().unwrap().as_mut_ptr()); }
+                                    "as_ptr" => { pc = Some(pm.take().unwrap().as_ptr()); }
+                                    "null" => { let mut j = a as i64; if let Some(p) = pc.as_mut() { <T as Shape>::pnull(p, &mut j); } if let Some(p) = pm.as_mut() { <T as Shape>::pmnull(p, &mut j); } }
+                                    "is_null" => return format!("{}", match (pc, pm) { (Some(p), _) => p.is_null(), (_, Some(p)) => p.is_null(), _ => unreachable!() }),
+                                    "read" | "read_volatile" | "read_unaligned" => {
+                                        let v: T = match (pc, pm, name) { (Some(p), _, "read") => p.read(), (Some(p), _, "read_volatile") => p.read_volatile(), (Some(p), _, _) => p.read_unaligned(),
+                                            (_, Some(p), "read") => p.read(), (_, Some(p), "read_volatile") => p.read_volatile(), (_, Some(p), _) => p.read_unaligned(), _ => unreachable!() };
+                                        let s = el_ids(&v); std::mem::forget(v); return s; }   // a bitwise copy: the container still owns the value
+                                    "as_ref" => return match (pc, pm) { (Some(p), _) => p.as_ref().map(|x| rids_s(&x)), (_, Some(p)) => p.as_ref().map(|x| rids_s(&x)), _ => unreachable!() }.map(|s| format!("some{}", s)).unwrap_or("none".into()),
+                                    "as_mut" => { let v: Vec<&str> = t.split(':').collect();
+                                        return match pm.unwrap().as_mut() { Some(mut x) => { if v.len() > 2 { let l: i64 = v[1].parse().unwrap(); let tag: u32 = v[2].parse().unwrap(); let mut j = l; <T as Shape>::rm_write(&mut x, &mut j, tag * 8 + l as u32); "written".into() } else { format!("some{}", rmids_s(&x)) } } None => "none".into() }; }
+                                    "write" | "write_volatile" | "write_unaligned" => {
+                                        let p = pm.unwrap(); let old: T = p.read();    // take the overwritten slot out first: a pointer write must not destroy it
+                                        let new = <T as Shape>::make(a as u32);
+                                        match name { "write" => p.write(new), "write_volatile" => p.write_volatile(new), _ => p.write_unaligned(new) }
+                                        let evs = take_events(0);                       // events of the write itself: must be none
+                                        let s = format!("written:{}:wev={}", el_ids(&old), fmt_ev(&evs)); drop(old); return s; }
+                                    _ => panic!("bad pointer token {}", t) }
+                            }
+                            let mut o = vec![]; match (pc, pm) { (Some(p), _) => <T as Shape>::paddrs(&p, &mut o), (_, Some(p)) => <T as Shape>::pmaddrs(&p, &mut o), _ => {} }
+                            let mut b = vec![]; <T as Shape>::vspans(&regs[r], &mut b);
+                            // report the element offset of every component relative to its field array (must be one common value)
+                            let offs: Vec<i64> = o.iter().zip(&b).map(|(a, s)| if s.2 == 0 { -1 } else { (*a as i64 - s.0 as i64) / s.2 as i64 }).collect();
+                            format!("at{:?}", offs).replace(' ', "") } });
+                        let rs = exec(1, || -> String { unsafe {
+                            let base: usize = if fname == "ref" || fname == "refmut" { fi } else { 0 };
+                            let mut p: *mut T = mirs[r].as_mut_ptr().add(base); let mut null = false;
+                            for t in &toks {
+                                let (name, a, _) = tok3(t);
+                                match name {
+                                    "add" => p = p.add(a), "sub" => p = p.sub(a), "offset" => p = p.offset(signed(t)),
+                                    "wadd" => p = p.wrapping_add(a), "wsub" => p = p.wrapping_sub(a), "woffset" => p = p.wrapping_offset(signed(t)),
+                                    "as_mut_ptr" | "as_ptr" => {}
+                                    "null" => null = true,
+                                    "is_null" => return format!("{}", null || p.is_null()),
+                                    "read" | "read_volatile" | "read_unaligned" => { let v = p.read(); let s = el_ids(&v); std::mem::forget(v); return s; }
+                                    "as_ref" => return if null { "none".into() } else { format!("some{}", el_ids(&*p)) },
+                                    "as_mut" => { let v: Vec<&str> = t.split(':').collect(); if null { return "none".into(); }
+                                        if v.len() > 2 { let l: i64 = v[1].parse().unwrap(); let tag: u32 = v[2].parse().unwrap(); let mut j = l; <T as Shape>::own_write(&mut *p, &mut j, tag * 8 + l as u32); return "written".into(); } else { return format!("some{}", el_ids(&*p)); } }
+                                    "write" | "write_volatile" | "write_unaligned" => { let old = p.read(); p.write(<T as Shape>::make(a as u32)); let evs = take_events(1); let s = format!("written:{}:wev={}", el_ids(&old), fmt_ev(&evs)); drop(old); return s; }
+                                    _ => panic!("bad pointer token {}", t) }
+                            }
+                            let off = (p as usize as i64 - mirs[r].as_ptr() as usize as i64) / (std::mem::size_of::<T>().max(1) as i64);
+                            let kinds: Vec<char> = { let mut d = String::new(); <T as Shape>::desc(&mut d); d.chars().filter(|c| "zbslh".contains(*c)).collect() };
+                            format!("at{:?}", kinds.iter().map(|k| if *k == 'z' { -1 } else { off }).collect::<Vec<i64>>()).replace(' ', "") } });
+                        (ri, rs) }
+                    // roundtrip r <vec|slice|slicemut>: rebuild the container from its pointer bundle and length (and capacity)
+                    "roundtrip" => { let r = reg(w[1]);
+                        (exec(0, || -> String { unsafe { match w[2] {
+                            "vec" => { regs[r].shrink_to_fit(); let mut v = std::mem::take(&mut regs[r]); let (p, l, c) = (v.as_mut_ptr(), v.len(), v.capacity()); std::mem::forget(v);
+                                       let nv = $V::from_raw_parts(p, l, if l == 0 { 0 } else { c }); let old = std::mem::replace(&mut regs[r], nv); std::mem::forget(old); "rebuilt".into() }
+                            "slice" => { let sl = regs[r].as_slice(); let nsl = $S::from_raw_parts(sl.as_ptr(), sl.len()); let mut o = vec![]; <T as Shape>::scols(&nsl, &mut o); fmt_cols(&o) }
+                            _ => { let mut sl = regs[r].as_mut_slice(); let (p, l) = (sl.as_mut_ptr(), sl.len()); let nsl = $SM::from_raw_parts_mut(p, l); let mut o = vec![]; <T as Shape>::smcols(&nsl, &mut o); fmt_cols(&o) } } } }),
+                         exec(1, || -> String { match w[2] { "vec" => { mirs[r].shrink_to_fit(); "rebuilt".into() } _ => fmt_cols(&mirror_cols(&mirs[r])) } })) }
+                    // refs r <op> ...: element references <-> owned values (C15)
+                    "refs" => { let r = reg(w[1]); let what = w[2];
+                        let ri = exec(0, || -> String { match what {
+                            "value_as_ref" => { let v = <T as Shape>::make(arg(3) as u32); let s = rids_s(&v.as_ref()); format!("{}/{}", s, el_ids(&v)) }
+                            "value_as_mut" => { let mut v = <T as Shape>::make(arg(3) as u32); { let mut m = v.as_mut(); let l = arg(4) as i64; let mut j = l; <T as Shape>::rm_write(&mut m, &mut j, (arg(5) as u32) * 8 + l as u32); } el_ids(&v) }
+                            "to_owned" => el_ids(&regs[r].index(arg(3)).to_owned()),
+                            "from" => el_ids(&T::from(regs[r].index(arg(3)))),
+                            "from_ref" => { let x = regs[r].index(arg(3)); el_ids(&T::from(&x)) }
+                            "mut_to_owned" => el_ids(&regs[r].index_mut(arg(3)).to_owned()),
+                            "from_mut" => el_ids(&T::from(regs[r].index_mut(arg(3)))),
+                            "from_mut_ref" => { let x = regs[r].index_mut(arg(3)); el_ids(&T::from(&x)) }
+                            _ => panic!("bad refs op") } });
+                        let rs = exec(1, || -> String { match what {
+                            "value_as_ref" => { let v = <T as Shape>::make(arg(3) as u32); format!("{}/{}", el_ids(&v), el_ids(&v)) }
+                            "value_as_mut" => { let mut v = <T as Shape>::make(arg(3) as u32); let l = arg(4) as i64; let mut j = l; <T as Shape>::own_write(&mut v, &mut j, (arg(5) as u32) * 8 + l as u32); el_ids(&v) }
+                            _ => el_ids(&mirs[r][arg(3)].clone()) } });
+                        (ri, rs) }
+                    "refreplace" => { let r = reg(w[1]); let (a, b) = (mk(0, arg(3)), mk(1, arg(3)));
+                        (exec(0, || El(regs[r].index_mut(arg(2)).replace(a))), exec(1, || { let i = arg(2); El(std::mem::replace(&mut mirs[r][i], b)) })) }
                     "clonefuse" => { arm_clone_fuse(w[1].parse().unwrap()); (exec(0, || {}), exec(1, || {})) }
                     _ => interp!(@clone $cl, w, regs, mirs, mk, arg, T, $V),
                 };
@@ -421,20 +758,20 @@ macro_rules! interp {
     };
 }
 
-interp!(run_one, One, OneVec, OneSlice, OneSliceMut, OneRef, OneRefMut, OnePtr, OnePtrMut, yes);
-interp!(run_two, Two, TwoVec, TwoSlice, TwoSliceMut, TwoRef, TwoRefMut, TwoPtr, TwoPtrMut, yes);
-interp!(run_flat4, Flat4, Flat4Vec, Flat4Slice, Flat4SliceMut, Flat4Ref, Flat4RefMut, Flat4Ptr, Flat4PtrMut, yes);
-interp!(run_heap, Heap, HeapVec, HeapSlice, HeapSliceMut, HeapRef, HeapRefMut, HeapPtr, HeapPtrMut, yes);
-interp!(run_drh, DrH, DrHVec, DrHSlice, DrHSliceMut, DrHRef, DrHRefMut, DrHPtr, DrHPtrMut, no);
-interp!(run_drn, DrN, DrNVec, DrNSlice, DrNSliceMut, DrNRef, DrNRefMut, DrNPtr, DrNPtrMut, no);
-interp!(run_nfirst, NFirst, NFirstVec, NFirstSlice, NFirstSliceMut, NFirstRef, NFirstRefMut, NFirstPtr, NFirstPtrMut, yes);
-interp!(run_nfirstf, NFirstF, NFirstFVec, NFirstFSlice, NFirstFSliceMut, NFirstFRef, NFirstFRefMut, NFirstFPtr, NFirstFPtrMut, yes);
-interp!(run_nmid, NMid, NMidVec, NMidSlice, NMidSliceMut, NMidRef, NMidRefMut, NMidPtr, NMidPtrMut, yes);
-interp!(run_nmidf, NMidF, NMidFVec, NMidFSlice, NMidFSliceMut, NMidFRef, NMidFRefMut, NMidFPtr, NMidFPtrMut, yes);
-interp!(run_nlast, NLast, NLastVec, NLastSlice, NLastSliceMut, NLastRef, NLastRefMut, NLastPtr, NLastPtrMut, yes);
-interp!(run_nlastf, NLastF, NLastFVec, NLastFSlice, NLastFSliceMut, NLastFRef, NLastFRefMut, NLastFPtr, NLastFPtrMut, yes);
-interp!(run_deep, Deep, DeepVec, DeepSlice, DeepSliceMut, DeepRef, DeepRefMut, DeepPtr, DeepPtrMut, yes);
-interp!(run_deepf, DeepF, DeepFVec, DeepFSlice, DeepFSliceMut, DeepFRef, DeepFRefMut, DeepFPtr, DeepFPtrMut, yes);
+interp!(run_one, One, OneVec, OneSlice, OneSliceMut, OneRef, OneRefMut, OnePtr, OnePtrMut, OneIter, OneIterMut, yes);
+interp!(run_two, Two, TwoVec, TwoSlice, TwoSliceMut, TwoRef, TwoRefMut, TwoPtr, TwoPtrMut, TwoIter, TwoIterMut, yes);
+interp!(run_flat4, Flat4, Flat4Vec, Flat4Slice, Flat4SliceMut, Flat4Ref, Flat4RefMut, Flat4Ptr, Flat4PtrMut, Flat4Iter, Flat4IterMut, yes);
+interp!(run_heap, Heap, HeapVec, HeapSlice, HeapSliceMut, HeapRef, HeapRefMut, HeapPtr, HeapPtrMut, HeapIter, HeapIterMut, yes);
+interp!(run_drh, DrH, DrHVec, DrHSlice, DrHSliceMut, DrHRef, DrHRefMut, DrHPtr, DrHPtrMut, DrHIter, DrHIterMut, no);
+interp!(run_drn, DrN, DrNVec, DrNSlice, DrNSliceMut, DrNRef, DrNRefMut, DrNPtr, DrNPtrMut, DrNIter, DrNIterMut, no);
+interp!(run_nfirst, NFirst, NFirstVec, NFirstSlice, NFirstSliceMut, NFirstRef, NFirstRefMut, NFirstPtr, NFirstPtrMut, NFirstIter, NFirstIterMut, yes);
+interp!(run_nfirstf, NFirstF, NFirstFVec, NFirstFSlice, NFirstFSliceMut, NFirstFRef, NFirstFRefMut, NFirstFPtr, NFirstFPtrMut, NFirstFIter, NFirstFIterMut, yes);
+interp!(run_nmid, NMid, NMidVec, NMidSlice, NMidSliceMut, NMidRef, NMidRefMut, NMidPtr, NMidPtrMut, NMidIter, NMidIterMut, yes);
+interp!(run_nmidf, NMidF, NMidFVec, NMidFSlice, NMidFSliceMut, NMidFRef, NMidFRefMut, NMidFPtr, NMidFPtrMut, NMidFIter, NMidFIterMut, yes);
+interp!(run_nlast, NLast, NLastVec, NLastSlice, NLastSliceMut, NLastRef, NLastRefMut, NLastPtr, NLastPtrMut, NLastIter, NLastIterMut, yes);
+interp!(run_nlastf, NLastF, NLastFVec, NLastFSlice, NLastFSliceMut, NLastFRef, NLastFRefMut, NLastFPtr, NLastFPtrMut, NLastFIter, NLastFIterMut, yes);
+interp!(run_deep, Deep, DeepVec, DeepSlice, DeepSliceMut, DeepRef, DeepRefMut, DeepPtr, DeepPtrMut, DeepIter, DeepIterMut, yes);
+interp!(run_deepf, DeepF, DeepFVec, DeepFSlice, DeepFSliceMut, DeepFRef, DeepFRefMut, DeepFPtr, DeepFPtrMut, DeepFIter, DeepFIterMut, yes);
 
 pub fn shape_desc(name: &str) -> Option<String> {
     fn d<T: Shape>() -> String { let mut s = String::new(); T::desc(&mut s); format!("{} drops={} {}", T::NAME, T::DROPS as u8, s.trim()) }
